@@ -304,6 +304,8 @@ func c12Step(r *hx.Run, sh *c12Shared, w *world.World, gc, cr bool, pool []*x509
 	s.Now = c12Arr(cur)
 	if vr.panicked {
 		fail = "crash in verify.TdxQuote"
+	} else if fail == "" {
+		fail = vr.side
 	}
 	cls := "-"
 	if vr.err != nil {
